@@ -1,3 +1,5 @@
+mod c02;
+mod c04;
 mod corescn;
 mod model;
 mod ops;
@@ -31,6 +33,10 @@ fn scenario_for(property: &str, known: &Known) -> Option<Box<dyn Scenario>> {
     Some(match property {
         "C01" => Box::new(props_core::c01(known)),
         "C05" => Box::new(props_core::c05(known)),
+        "C03" => Box::new(props_core::c03(known, 3)),
+        "C06" => Box::new(props_core::c06(known, &[0, 1, 2], &["x", "x/y"])),
+        "C07" => Box::new(props_core::c07(known, false)),
+        "C08" => Box::new(props_core::c08(known)),
         _ => return None,
     })
 }
@@ -79,6 +85,83 @@ fn main() {
             )],
             CORE_ASSUMPTIONS,
             "every history over the listed request alphabet (mutators + ls subscriptions at every position) up to the completed depth, de-duplicated by a complete state snapshot; distinct_nontrivial counts distinct (request kind, answer class) pairs observed",
+        ),
+        "C04" => c04::run(&tier),
+        "C02" => {
+            let mut v: Vec<(String, Box<dyn Scenario>, Tiered, &'static str)> = vec![];
+            for (name, sc) in c02::scenarios(&tier) {
+                let total: usize = sc.programs.iter().map(Vec::len).sum();
+                v.push((
+                    name,
+                    Box::new(sc),
+                    Tiered { quick: lim(total + 1, total, true, 40), thorough: lim(total + 1, total, true, 600) },
+                    "graph",
+                ));
+            }
+            run_scenarios(
+                "C02",
+                &tier,
+                "model_checking",
+                v,
+                &[
+                    "request granularity: one request is processed to completion by the single task that owns the core (structural, worterbuch/src/lib.rs run_in_regular_mode); the explorer decides which client's next request is applied",
+                    "at version u64::MAX a cset cannot raise the version by one; the reference expects it to be refused with a version mismatch",
+                    "extended_monitoring=false; jemalloc/telemetry/sqlite features off",
+                ],
+                "every interleaving of the requests of the listed client programs (cget; cset-with-that-version cycles, a plain writer, a deleter, a rogue client with stale/future/boundary versions), explored to the end of all programs and de-duplicated by (stored tree, program counters, each client's last read); distinct_nontrivial counts distinct outcome classes per scenario (won / stale / future / refused / ...)",
+            )
+        }
+        "C03" => run_scenarios(
+            "C03",
+            &tier,
+            "model_checking",
+            vec![(
+                "events".into(),
+                Box::new(props_core::c03(&known, 3)),
+                Tiered { quick: lim(4, 2, true, 40), thorough: lim(8, 3, true, 600) },
+                "graph",
+            )],
+            CORE_ASSUMPTIONS,
+            "every history over mutators, publish and (p)subscribe/unsubscribe/disconnect requests (at most 3 concurrent subscriptions) up to the completed depth, de-duplicated by a complete state snapshot; every receiver is drained after every request and compared with the reference's expected stream; distinct_nontrivial counts distinct (request kind, answer class) pairs",
+        ),
+        "C06" => run_scenarios(
+            "C06",
+            &tier,
+            "model_checking",
+            vec![(
+                "locks".into(),
+                Box::new(props_core::c06(&known, &[0, 1, 2], &["x", "x/y"])),
+                Tiered { quick: lim(4, 2, true, 40), thorough: lim(9, 3, true, 600) },
+                "graph",
+            )],
+            CORE_ASSUMPTIONS,
+            "every sequence of lock/acquireLock/releaseLock/disconnect/connect by three clients over two nested keys up to the completed depth, de-duplicated by a complete state snapshot; acquire receivers are polled after every request; distinct_nontrivial counts distinct (request kind, answer class) pairs",
+        ),
+        "C07" => run_scenarios(
+            "C07",
+            &tier,
+            "model_checking",
+            vec![(
+                "sessions".into(),
+                Box::new(props_core::c07(&known, tier == "thorough")),
+                Tiered { quick: lim(4, 2, true, 40), thorough: lim(7, 3, true, 600) },
+                "graph",
+            )],
+            CORE_ASSUMPTIONS,
+            "every history of connect, grave-goods/last-will (re-)registration, user writes, subscriptions, publish streams, locks and disconnect up to the completed depth, de-duplicated by a complete state snapshot; distinct_nontrivial counts distinct (request kind, answer class) pairs",
+        ),
+        "C08" => run_scenarios(
+            "C08",
+            &tier,
+            "model_checking",
+            vec![(
+                "sys".into(),
+                Box::new(props_core::c08(&known)),
+                Tiered { quick: lim(2, 1, true, 40), thorough: lim(4, 2, true, 600) },
+                "graph",
+            )],
+            CORE_ASSUMPTIONS,
+            "every history of requests of an ordinary client (set, cset, delete, pdelete, publish, spub, lock, grave goods / last will + disconnect) over every key/pattern shape that can reach $SYS, up to the completed depth, with sentinels planted and watched by the server's own client; distinct_nontrivial counts distinct (request kind, answer class) pairs",
         ),
         other => {
             eprintln!("unknown property {other}");
